@@ -173,4 +173,17 @@ FireIndex(f, k, o) == LET c == {j \in 1..Len(Table[f]) : Reads(k, Table[f][j].to
 (***************************************************************************)
 RawT(f) == IF f = <<>> THEN EnterRule(<<>>, "GherkinDocument", <<>>, NoHint) ELSE After(f, <<>>)
 RawSucc(f) == { <<RawT(f)[j].tok, RawT(f)[j].target>> : j \in 1..Len(RawT(f)) }
+RawTable == TLCEval([f \in States |-> RawSucc(f)])
+\* one step of the subset construction on a line kind: read by the rule of Reads, comments and blank lines loop where free text is not expected
+NfaExpected(S) == UNION { {e[1] : e \in RawTable[p]} : p \in {q \in S : ~IsEnd(q)} }
+NfaRead(S, k0) == LET ex == NfaExpected(S)  k == IF k0 = "#Language" /\ k0 \notin ex THEN "#Comment" ELSE k0 IN
+                  IF k \in ex THEN k ELSE IF "#Other" \in ex /\ k # "#EOF" THEN "#Other" ELSE k
+NfaStep(S, k) == LET ex == NfaExpected(S)  r == NfaRead(S, k) IN
+                 IF r \in ex THEN UNION { {e[2] : e \in {x \in RawTable[p] : x[1] = r}} : p \in {q \in S : ~IsEnd(q)} }
+                 ELSE IF r \in {"#Comment", "#Empty"} /\ "#Other" \notin ex THEN S
+                 ELSE {}
+RECURSIVE NfaRun(_, _, _)
+NfaRun(S, kinds, j) == IF j > Len(kinds) THEN S ELSE NfaRun(NfaStep(S, kinds[j]), kinds, j + 1)
+\* is the sequence of line kinds (without the end of file) a sentence of the grammar?
+IsSentence(kinds) == \E p \in NfaRun({<<>>}, kinds \o <<"#EOF">>, 1) : IsEnd(p)
 =============================================================================
